@@ -20,13 +20,12 @@ def gen_pins(repo):
         vals = []
         for f in sorted(pins[prop]):
             p = os.path.join(repo, f)
-            if f not in cache:
-                try:
-                    cache[f] = pinlib.items(p)
-                except OSError as e:
-                    raise ExtractError(f"cannot read {f}: {e}")
+            try:
+                cur = pinlib.digests(p, sorted(pins[prop][f]))
+            except OSError as e:
+                raise ExtractError(f"cannot read {f}: {e}")
             for name in sorted(pins[prop][f]):
-                d = cache[f].get(name)
+                d = cur.get(name)
                 vals.append(int(d, 16) if d else 0)
                 if d != pins[prop][f][name]:
                     notes.append(f"-- CHANGED {prop} {f} :: {name}" + ("" if d else " (missing)"))
